@@ -87,6 +87,44 @@ def documented_digest(tree, patterns, follow=False):
     return hashlib.sha256(text).hexdigest(), ref[1]
 
 
+def inplace_edit_case(rng, res, no):
+    """The same directory recorded twice in one process, a contained file rewritten in place in between - same size, and
+    (as archives, `cp -p`, `rsync -t`, clamped build time stamps leave it) the same modification time: the second
+    digest is the documented one of what is there NOW."""
+    tree = {"app.bin": ("f", b"app %03d\n" % rng.randrange(999)), "sub": ("d", {"conf.ini": ("f", b"mode=a\n"), "data": ("f", b"0123456789")}),
+            "README": ("f", b"read me\n")}
+    target, new = [("sub/conf.ini", b"mode=b\n"), ("app.bin", b"APP 000\n"), ("sub/data", b"9876543210")][no % 3]
+    keep_mtime = no % 2 == 0
+    d = tempfile.mkdtemp(prefix="verif-c20e-")
+    try:
+        T.materialise(tree, os.path.join(d, "out"))
+        first = impl_dir(d, "out", [])
+        path = os.path.join(d, "out", target)
+        st0 = os.stat(path)
+        with open(path, "r+b") as f:          # (in place: the same inode)
+            f.write(new)
+        if keep_mtime:
+            os.utime(path, ns=(st0.st_atime_ns, st0.st_mtime_ns))
+        second = impl_dir(d, "out", [])
+    finally:
+        shutil.rmtree(d, ignore_errors=True)
+    t2 = copy.deepcopy(tree)
+    node = t2
+    for comp in target.split("/")[:-1]:
+        node = node[comp][1]
+    node[target.split("/")[-1]] = ("f", new)
+    want1, want2 = documented_digest(tree, [])[0], documented_digest(t2, [])[0]
+    got1 = dict(first.get("ok") or []).get("dir:out"); got2 = dict(second.get("ok") or []).get("dir:out")
+    case = {"op": "inplace_edit", "no": no, "file": target, "modification_time_kept": keep_mtime}
+    ok = got1 == want1 and got2 == want2
+    res.case(dict(case, first=got1, second=got2), True, ok, sample_cap=1)
+    res.count("inplace_edit")
+    if not ok:
+        res.fail("oracle", case, {"why": "a directory recorded again after a file in it was rewritten in place does not have the documented "
+                                         "digest of its present content" if got1 == want1 else "first recording differs from the documented digest",
+                                  "first": first, "second": second, "documented": [want1, want2]})
+
+
 # lists whose ORDER (and repetitions) matter: a later pattern overrides an earlier one
 ORDERED_PATTERNS = [["*.txt", "!bar.txt"], ["!bar.txt", "*.txt"], ["*.txt", "!bar.txt", "*.txt"], ["*.c", "*.txt", "!/sub/bar.txt"],
                     ["bar.*", "!bar.txt", "keep.log"], ["*.log", "!keep.log"], ["!keep.log", "*.log"]]
@@ -367,6 +405,7 @@ def shard(seed, idx, n, tier):
     for _ in range(n):
         one_case(rng, res)
     one_case(rng, res, ordered=idx)          # (every order-sensitive list in every run)
+    inplace_edit_case(rng, res, idx)
     if idx < 3:
         # a directory without a single recorded file (empty, only empty sub-directories, everything excluded): the
         # digest of zero lines; adding a file changes it
@@ -402,6 +441,11 @@ def run(tier, seed):
 
 
 def replay(case):
+    if case.get("op") == "inplace_edit":
+        import random
+        res = core.Result()
+        inplace_edit_case(random.Random(0), res, case["no"])
+        return {"case": case, "failures": res.failures, "samples": res.samples}
     if case.get("op") != "dir_digest" or "tree" not in case:
         return {"note": "regenerated from the seed", "case": case}
     import random
